@@ -28,7 +28,8 @@ CONSTANTS Keys,       \* key names
           Cap0s, Autos,
           MaxCap, MaxDepth, MaxOut, MaxReloads,
           NPARTS, PART,
-          Queries     \* BOOLEAN: look-ups are operations of the history (used with ViewH)
+          Queries,    \* BOOLEAN: look-ups are operations of the history (used with ViewH)
+          Setters     \* BOOLEAN: the auto_expand setter is an operation (fill a filter, then freeze its size - or the reverse)
 
 VARIABLES cap, tbl, n, uniq, out, alt, auto, c0, rl, hist, last
 vars == <<cap, tbl, n, uniq, out, alt, auto, c0, rl, hist, last>>
@@ -120,7 +121,7 @@ StepSet(st, a, o) ==
   CASE o[1] = "add" -> AddSet(st, a, o[2])
     [] o[1] = "rem" -> RemSet(st, o[2])
     [] o[1] = "exp" -> ExpSet(st)
-    [] o[1] \in {"rt", "chk"} -> {[st |-> st, err |-> FALSE, ch |-> <<>>, ret |-> 0]}     \* export + load, and a look-up: identity on the table
+    [] o[1] \in {"rt", "chk", "auto"} -> {[st |-> st, err |-> FALSE, ch |-> <<>>, ret |-> 0]}     \* export + load, a look-up, the setter: identity on the table
 
 (* the history oracle: outstanding additions per fingerprint, from the operations and their outcome only *)
 OutStep(ou, o, err, ret) ==
@@ -131,6 +132,7 @@ OutStep(ou, o, err, ret) ==
 
 Ops == {<<"add", k>> : k \in Keys} \cup {<<"rem", k>> : k \in Keys} \cup {<<"exp", "">>} \cup {<<"rt", "bytes">>, <<"rt", "file">>}
        \cup (IF Queries THEN {<<"chk", k>> : k \in Keys} ELSE {})
+       \cup (IF Setters THEN {<<"auto", "T">>, <<"auto", "F">>} ELSE {})
           \* a look-up as an ACTION that changes nothing (C19), part of the history under ViewH: the code may keep state across it
 
 -----------------------------------------------------------------------------
@@ -155,7 +157,8 @@ Do(o) == /\ (o[1] = "rt" => rl < MaxReloads)
            /\ out' = OutStep(out, o, r.err, r.ret)
            /\ last' = [o |-> o, ch |-> r.ch, err |-> r.err, ret |-> r.ret]
            /\ hist' = Append(hist, <<o, r.ch>>)
-           /\ UNCHANGED <<alt, auto, c0>>
+           /\ auto' = (IF o[1] = "auto" THEN o[2] = "T" ELSE auto)
+           /\ UNCHANGED <<alt, c0>>
 
 Next == \E o \in Ops : Do(o)
 Spec == Init /\ [][Next]_vars
